@@ -293,6 +293,8 @@ func wireCmd(args []string) int {
 						continue // raw stream frames are exercised by `vh transport`
 					}
 					before := env.contents()
+					lenBefore := env.r1.S.OpLog().Len()
+					_, hadSeed := env.r1.S.OpLog().Get(seedHead.GetHash())
 					payload := malformed(cls, env.w1.Addr, real, seedHead, rng)
 					if cls == "head-links-to-malformed-block" {
 						// a well-formed head of the authorised writer whose link leads to a block that is the seed entry
@@ -341,9 +343,15 @@ func wireCmd(args []string) int {
 						}
 						after = before
 					}
+					if after != before && os.Getenv("VH_DEBUG") != "" {
+						for _, e := range env.r1.S.OpLog().GetEntries().Slice() {
+							res.note("%s step %d: r1 holds %s clock %d payload %s next %v", b.ID, si, e.GetHash(), e.GetClock().GetTime(), truncate(e.GetPayload(), 60), e.GetNext())
+						}
+						res.note("seed head %s", seedHead.GetHash())
+					}
 					if after != before {
 						_, ok := env.r1.S.OpLog().Get(seedHead.GetHash())
-						if !(ok && (cls == "mutated-real" || cls == "truncated-real" || cls == "head-null-among-valid" || cls == "address-missing" || cls == "address-unknown" || cls == "address-ill-typed") && env.r1.S.OpLog().Len() == 1 && env.r2.S.OpLog().Len() == 0) {
+						if !(ok && (cls == "mutated-real" || cls == "truncated-real" || cls == "head-null-among-valid" || cls == "address-missing" || cls == "address-unknown" || cls == "address-ill-typed") && !hadSeed && env.r1.S.OpLog().Len() == lenBefore+1 && env.r2.S.OpLog().Len() == 0) {
 							viol(si, "changed", fmt.Sprintf("a %s message of class %s changed the contents: %s -> %s", ch, cls, before, after))
 						}
 					}
